@@ -20,7 +20,8 @@ EXPLANATION = (
     " ROUND 7: R7-ERRORS-MERGED: the parts of a statement are resolved together (tuple) so that the placement errors of every part are reported."
     " ROUND 8: R8-COMBINERS-KEEP-BOTH: combine, accumulate, the fold of Vec<T> and the pair examine both results in one match, hand back both error lists when both failed and contain no `?`; R3-LINT-TYPESTATE 'sees no inherited flag': Block::lint run from a symbolic entry state writes both flags before any statement of the block is linted."
     " ROUND 9: C03.R11-BRANCH-TARGETS-FRESH is shared: a `loop` ending a block is accepted only if the looped block compiles, and its back edge needs a block of its own; R8 also covers the wider tuples."
-    " ROUND 10: R4-LOOP-PEELED 'the resolver keeps blocks blocks': every value of the Block arm of the resolver's Statement impl is Ok(resolved::Statement::Block(..)) or an error.")
+    " ROUND 10: R4-LOOP-PEELED 'the resolver keeps blocks blocks': every value of the Block arm of the resolver's Statement impl is Ok(resolved::Statement::Block(..)) or an error."
+    " ROUND 12: R9-EVERY-DECLARATION-LINTED: in the per-declaration closure of analyze_and_resolve_sorted Linter::lint is dominated by Analyzer::analyze and lies on every path from it to a normal return (L1800 does not depend on the outcome of the resolver); R8 also covers the list resolver by its impl path: no short-circuiting adaptor, no `?`.")
 
 AN = "alpha::analyzer::syntax::"
 ST = "<alpha::common::Statement as alpha::analyzer::syntax::Analyzable>::analyze"
